@@ -4,6 +4,24 @@ Parts: module loading + indexing (parents, owner function), literal evaluation o
 resolution, guard facts ("what is known to hold at this node") with a small propositional/theory
 propagation, termination of blocks, the schema model (classes, fields, tables, vocabularies) read
 from mjcf_schema.py, class inference for variables, key provenance for table lookups.
+
+Layout independence (what the rules built on this module see is what the code does, not how it is arranged):
+ * calls        `resolve` follows calls through dispatch tables (`D.get(k)` / `D[k]` on a dict literal that is only ever
+                looked up, whose values are functions, bound methods or tuples of them), through tuple unpacking of such
+                entries, through closures / functions passed as arguments, to every possible target (`leaves`,
+                `callable_targets`, `_callidx`: a fixed point, since a variable call is itself a call site).
+ * facts        `know_at` = tests enclosing / preceding the node in its function, plus
+                  - a boolean local or a `return <expr>` predicate helper stands for its expression (`Forms._expand`),
+                  - a call of a pure checking helper (`if c: raise`) is that check at the call site (`_post_call_tests`),
+                  - `if c: <checks>` yields `c -> checks` afterwards (`_after_if`),
+                  - what holds at every call site of a private helper holds on its entry (`entry_facts`, arguments bound
+                    to parameters; entry points and functions used as values get none).
+ * values       `origins` / `classes_of` / `elem_classes` follow helper returns (tuple literals, grown lists), `f(*t)`,
+                `a, b = item`, fields of helper classes; `tables_of` follows aliases of schema tables.
+ * guarantees   `validator_guarantees` follows the validator into helpers called per declaration / per member / once,
+                carrying what their parameters range over; a check that exists but is not shown to cover every
+                declaration is a *weak* guarantee: lookups that would need it are undecided (exit 2), not violations.
+ * `Undecided`  obligations that could not be interpreted end the run as ANALYSIS-ERROR unless a definite violation exists.
 """
 from __future__ import annotations
 
@@ -136,12 +154,53 @@ _text_cache = {}
 
 
 def text(n):
+    if getattr(n, "_syn", False) or not hasattr(n, "_mod"):
+        return ast.unparse(n)           # synthetic nodes die young: their id() may be reused, never cache them
     t = _text_cache.get(id(n))
     if t is None:
         t = ast.unparse(n)
         _text_cache[id(n)] = t
         n._keep = True
     return t
+
+
+def clone(node, repl=None):
+    """Structural copy of an expression (no analysis attributes); `repl(node)` may return a replacement subtree."""
+    if repl is not None:
+        r = repl(node)
+        if r is not None:
+            return r
+    kw = {}
+    for name, value in ast.iter_fields(node):
+        if isinstance(value, list):
+            kw[name] = [clone(v, repl) if isinstance(v, ast.AST) else v for v in value]
+        elif isinstance(value, ast.AST):
+            kw[name] = clone(value, repl)
+        else:
+            kw[name] = value
+    new = type(node)(**kw)
+    for a in ("lineno", "col_offset", "end_lineno", "end_col_offset"):
+        if hasattr(node, a):
+            setattr(new, a, getattr(node, a))
+    return new
+
+
+def graft(new, at):
+    """Give the synthetic expression `new` the analysis attributes of a node standing where `at` stands."""
+    def visit(n, parent, field, idx):
+        n._parent, n._field, n._idx, n._fn, n._ann, n._mod, n._syn = parent, field, idx, at._fn, False, at._mod, True
+        if not hasattr(n, "lineno") and isinstance(n, (ast.expr, ast.stmt)):
+            n.lineno, n.col_offset = getattr(at, "lineno", 1), getattr(at, "col_offset", 0)
+        for name, value in ast.iter_fields(n):
+            if isinstance(value, list):
+                for i, item in enumerate(value):
+                    if isinstance(item, ast.AST):
+                        visit(item, n, name, i)
+            elif isinstance(value, ast.AST):
+                visit(value, n, name, None)
+    visit(new, at._parent, at._field, at._idx)
+    new.lineno, new.col_offset = getattr(at, "lineno", 1), getattr(at, "col_offset", 0)
+    return new
 
 
 def pos(n):
@@ -230,9 +289,26 @@ BUILTIN_METHODS = {
 
 
 def resolve(call, fn, extra_mods=()):
-    """-> (kind, payload): 'func' [Func..] | 'class' name | 'builtin' name | 'method' name | 'extern' text | 'unknown' text."""
+    """-> (kind, payload): 'func' [Func..] | 'class' name | 'builtin' name | 'method' name | 'extern' text | 'unknown' text.
+    A call through a local variable or parameter that can only hold functions of the analysed modules (dispatch table of
+    bound methods / functions, tuple component of such a table, closure or function passed as an argument) resolves to
+    all of them."""
+    r = _resolve_basic(call, fn, extra_mods)
+    if r[0] == "varcall":
+        tg = _callidx()["var"].get(id(call))
+        return ("func", list(tg)) if tg else ("unknown", r[1])
+    return r
+
+
+def _resolve_basic(call, fn, extra_mods=()):
     mod = call._mod
     f = call.func
+    if isinstance(f, (ast.Call, ast.Subscript, ast.IfExp)) and fn is not None and (
+            isinstance(f, ast.IfExp) or _lookup_source(f, fn)):
+        return "varcall", text(f)          # D.get(k, default)(..) / D[k](..) on a dispatch table
+    if isinstance(f, ast.Name) and fn is not None and _scope_of(f.id, fn) is not None and \
+            not any((s.qual + "." + f.id) in mod.funcs for s in _scope_chain(fn)):
+        return "varcall", f.id
     if isinstance(f, ast.Name):
         scope = fn
         while scope is not None:
@@ -288,6 +364,255 @@ def _is_local(name_node, fn):
         isinstance(n, ast.Name) and n.id == name_node.id and isinstance(n.ctx, ast.Store) for n in fn.mod.nodes(fn))
 
 
+def _nested_in(g, root):
+    p = g.parent
+    while p is not None:
+        if p is root:
+            return True
+        p = p.parent
+    return False
+
+
+def _scope_chain(fn):
+    while fn is not None:
+        yield fn
+        fn = fn.parent
+
+
+# ----------------------------------------------------------------------------- values a name can hold
+_LOOKUP_ATTRS = {"get", "keys", "values", "items", "copy"}
+_LOOKUP_CALLS = {"len", "sorted", "list", "set", "frozenset", "iter", "bool", "tuple", "dict"}
+
+
+def _lookup_only(use):
+    """The use of a dict-valued name/attribute can neither change the dict nor let it escape."""
+    p = use._parent
+    if isinstance(p, ast.Attribute) and use._field == "value" and p.attr in _LOOKUP_ATTRS and \
+            isinstance(p._parent, ast.Call) and p._field == "func":
+        return True
+    if isinstance(p, ast.Subscript) and use._field == "value" and isinstance(p.ctx, ast.Load):
+        return True
+    if isinstance(p, ast.Compare) and use._field == "comparators" and isinstance(p.ops[use._idx], (ast.In, ast.NotIn)):
+        return True
+    if isinstance(p, (ast.For, ast.comprehension)) and use._field == "iter":
+        return True
+    if isinstance(p, ast.Call) and use._field == "args" and isinstance(p.func, ast.Name) and p.func.id in _LOOKUP_CALLS:
+        return True
+    return False
+
+
+def dict_entries(expr, fn):
+    """([(key node, value node)], owner Func | None) when `expr` denotes a dict literal that is only ever looked up: a
+    local assigned exactly once, or a module- / class-level constant.  None otherwise."""
+    mod = expr._mod
+    d, owner = None, None
+    if isinstance(expr, ast.Dict):
+        d, owner = expr, fn
+    elif isinstance(expr, ast.Name):
+        scope = _scope_of(expr.id, fn) if fn is not None else None
+        if scope is not None:
+            st = stores_of(scope).get(expr.id, [])
+            if expr.id in scope.params or len(st) != 1 or not (
+                    isinstance(st[0]._parent, ast.Assign) and st[0]._field == "targets" and len(st[0]._parent.targets) == 1):
+                return None
+            d, owner = st[0]._parent.value, scope
+            uses = [n for g in mod.funcs.values() for n in mod.nodes(g) if isinstance(n, ast.Name) and n.id == expr.id
+                    and isinstance(n.ctx, ast.Load) and _scope_of(expr.id, g) is scope]
+        else:
+            tops = [s for s in mod.tree.body if isinstance(s, ast.Assign) and any(
+                isinstance(t, ast.Name) and t.id == expr.id for t in s.targets)]
+            if len(tops) != 1:
+                return None
+            d, owner = tops[0].value, None
+            uses = [n for g in [None] + list(mod.funcs.values()) for n in mod.nodes(g) if isinstance(n, ast.Name)
+                    and n.id == expr.id and isinstance(n.ctx, ast.Load) and (g is None or _scope_of(expr.id, g) is None)]
+        if not all(_lookup_only(u) for u in uses):
+            return None
+    elif isinstance(expr, ast.Attribute) and isinstance(expr.value, ast.Name) and \
+            (expr.value.id in mod.classes or (expr.value.id == "self" and fn is not None and fn.cls)):
+        cname = expr.value.id if expr.value.id in mod.classes else fn.cls
+        body = [s for s in mod.classes[cname].body if isinstance(s, ast.Assign) and any(
+            isinstance(t, ast.Name) and t.id == expr.attr for t in s.targets)] if cname in mod.classes else []
+        if len(body) != 1:
+            return None
+        d, owner = body[0].value, None
+        uses = [n for g in [None] + list(mod.funcs.values()) for n in mod.nodes(g) if isinstance(n, ast.Attribute)
+                and n.attr == expr.attr]
+        if not all(isinstance(u.ctx, ast.Load) and _lookup_only(u) for u in uses):
+            return None
+    if not isinstance(d, ast.Dict) or any(k is None for k in d.keys):
+        return None
+    return list(zip(d.keys, d.values)), owner
+
+
+def _lookup_source(expr, fn):
+    """(entries, owner, may_be_none) when expr is `D[k]` / `D.get(k)` / `D.get(k, default)` on a lookup-only dict literal."""
+    if isinstance(expr, ast.Subscript) and not isinstance(expr.slice, ast.Slice):
+        de = dict_entries(expr.value, fn)
+        if de:
+            return [v for _, v in de[0]], de[1], None
+    if isinstance(expr, ast.Call) and isinstance(expr.func, ast.Attribute) and expr.func.attr == "get" and \
+            1 <= len(expr.args) <= 2 and not expr.keywords:
+        de = dict_entries(expr.func.value, fn)
+        if de:
+            return [v for _, v in de[0]], de[1], (expr.args[1] if len(expr.args) == 2 else ast.Constant(None))
+    return None
+
+
+def leaves(expr, fn, idx=None, _seen=None, _depth=0):
+    """[(node, Func, idx)]: the expressions whose value `expr` (component idx of it, if not None) can take, followed
+    through plain local assignments, tuple unpacking, lookups in dispatch dict literals, conditional expressions and
+    parameters (bound at every call site).  A triple that could not be followed further is returned as it is (opaque)."""
+    seen = _seen if _seen is not None else set()
+    key = (id(expr), idx)
+    if key in seen:
+        return []
+    seen.add(key)
+    if _depth > 12:
+        return [(expr, fn, idx)]
+    if idx is not None and isinstance(expr, ast.Tuple) and idx < len(expr.elts) and \
+            not any(isinstance(e, ast.Starred) for e in expr.elts):
+        return leaves(expr.elts[idx], fn, None, seen, _depth + 1)
+    if isinstance(expr, ast.IfExp):
+        return leaves(expr.body, fn, idx, seen, _depth + 1) + leaves(expr.orelse, fn, idx, seen, _depth + 1)
+    src = _lookup_source(expr, fn) if fn is not None else None
+    if src:
+        vals, owner, dflt = src
+        out = []
+        for v in vals:
+            out.extend(leaves(v, owner if owner is not None else fn, idx, seen, _depth + 1))
+        if dflt is not None:
+            if isinstance(dflt, ast.Constant) and dflt.value is None:
+                if idx is None:         # a component of a miss does not exist: the unpacking itself would have raised
+                    out.append((dflt, fn, None))
+            else:
+                out.extend(leaves(dflt, fn, idx, seen, _depth + 1))
+        return out
+    if isinstance(expr, ast.Name) and fn is not None:
+        scope = _scope_of(expr.id, fn)
+        if scope is None:
+            return [(expr, fn, idx)]
+        stores = [s for s in stores_of(scope).get(expr.id, []) if not any(isinstance(a, ast.comprehension) for a in ancestors(s))]
+        out = []
+        if expr.id in scope.params:
+            sites = _sites(scope)
+            if not sites:
+                return [(expr, fn, idx)]
+            for caller, call in sites:
+                a = bind_args(call, scope).get(expr.id)
+                if a is None:
+                    a = _param_default(scope, expr.id)
+                if a is None:
+                    return [(expr, fn, idx)]
+                out.extend(leaves(a, getattr(a, "_fn", caller), idx, seen, _depth + 1))
+        for s in stores:
+            top = s
+            while not isinstance(top._parent, ast.stmt):
+                top = top._parent
+            st = top._parent
+            if isinstance(st, ast.Assign) and top._field == "targets" and len(st.targets) == 1:
+                if top is s:
+                    out.extend(leaves(st.value, scope, idx, seen, _depth + 1))
+                    continue
+                tpos = _target_pos(top, expr.id)
+                if isinstance(tpos, int) and idx is None and not any(isinstance(e, ast.Starred) for e in top.elts):
+                    out.extend(leaves(st.value, scope, tpos, seen, _depth + 1))
+                    continue
+            return [(expr, fn, idx)]
+        return out
+    return [(expr, fn, idx)]
+
+
+def _param_default(fn, pname):
+    a = fn.node.args
+    posl = a.posonlyargs + a.args
+    for p, d in zip(posl[len(posl) - len(a.defaults):], a.defaults):
+        if p.arg == pname:
+            return d
+    for p, d in zip(a.kwonlyargs, a.kw_defaults):
+        if p.arg == pname:
+            return d
+    return None
+
+
+def func_of_ref(node, fn):
+    """The Func a value expression denotes (function name, nested function, bound method `self.m`, `module.f`), or None."""
+    mod = getattr(node, "_mod", None) or (fn.mod if fn is not None else None)
+    if mod is None:
+        return None
+    if isinstance(node, ast.Name):
+        for s in _scope_chain(fn):
+            q = s.qual + "." + node.id
+            if q in mod.funcs:
+                return mod.funcs[q]
+        if fn is not None and _scope_of(node.id, fn) is not None:
+            return None
+        return mod.funcs.get(node.id)
+    if isinstance(node, ast.Attribute) and isinstance(node.value, ast.Name):
+        if node.value.id == "self" and fn is not None and fn.cls:
+            return mod.funcs.get(f"{fn.cls}.{node.attr}")
+        if node.value.id in mod.classes:
+            return mod.funcs.get(f"{node.value.id}.{node.attr}")
+        target = mod.imports.get(node.value.id)
+        if target and not _is_local(node.value, fn) and os.path.exists(os.path.join(cfront.REPO, GEN, target + ".py")):
+            return load(target + ".py").funcs.get(node.attr)
+    return None
+
+
+def callable_targets(expr, fn):
+    """Functions a callable-valued expression can denote, or None when some possible value is not a function of the
+    analysed modules (None values are left out: calling them is a matter for the not-None obligation)."""
+    out = []
+    for node, lf, idx in leaves(expr, fn):
+        if idx is not None:
+            return None
+        if isinstance(node, ast.Constant) and node.value is None:
+            continue
+        g = func_of_ref(node, lf)
+        if g is None:
+            return None
+        if g not in out:
+            out.append(g)
+    return out or None
+
+
+def _callidx():
+    """Call index of the analysed modules: sites of every function, and the targets of calls through variables,
+    computed together to a fixed point (a variable call is a call site of its targets)."""
+    key = ("callidx", cfront.REPO)
+    idx = _mods.get(key)
+    if idx is not None:
+        return idx
+    idx = {"var": {}, "sites": {}}
+    _mods[key] = idx
+    sm = model()
+    basic, pending = {}, []
+    for f in universe():
+        for c in calls_in(f):
+            k, p = _resolve_basic(c, f, (sm.mod,))
+            if k == "func":
+                for g in p:
+                    basic.setdefault(g, []).append((f, c))
+            elif k == "varcall":
+                pending.append((f, c))
+    idx["sites"] = {g: list(v) for g, v in basic.items()}
+    for _ in range(8):
+        var = {}
+        for f, c in pending:
+            tg = callable_targets(c.func, f)
+            if tg:
+                var[id(c)] = tg
+        sites = {g: list(v) for g, v in basic.items()}
+        for f, c in pending:
+            for g in var.get(id(c), ()):
+                sites.setdefault(g, []).append((f, c))
+        stable = {k: [g.qual for g in v] for k, v in var.items()} == {k: [g.qual for g in v] for k, v in idx["var"].items()}
+        idx["var"], idx["sites"] = var, sites
+        if stable:
+            break
+    return idx
+
+
 def calls_in(fn):
     return [n for n in fn.mod.nodes(fn) if isinstance(n, ast.Call)]
 
@@ -330,7 +655,15 @@ def bind_args(call, target):
     if target.cls and target.parent is None and params and params[0] in ("self", "cls"):
         params = params[1:]
     out = {}
-    for p, a in zip(params, call.args):
+    for i, (p, a) in enumerate(zip(params, call.args)):
+        if isinstance(a, ast.Starred):
+            # f(*t): the remaining positional parameters receive t[0], t[1], ... (synthetic subscripts of t)
+            if i == len(call.args) - 1:
+                for j, q in enumerate(params[i:]):
+                    if q in {kw.arg for kw in call.keywords}:
+                        break
+                    out[q] = graft(ast.Subscript(value=clone(a.value), slice=ast.Constant(j), ctx=ast.Load()), a)
+            break
         out[p] = a
     for kw in call.keywords:
         if kw.arg:
@@ -424,13 +757,162 @@ def is_raise_site(stmt, fn):
 
 
 # ----------------------------------------------------------------------------- formulas and facts
+def _docless(body):
+    return [s for s in body if not (isinstance(s, ast.Expr) and isinstance(s.value, ast.Constant))]
+
+
+def _boolish(v, fn):
+    if isinstance(v, (ast.Compare, ast.BoolOp)) or (isinstance(v, ast.UnaryOp) and isinstance(v.op, ast.Not)):
+        return True
+    if isinstance(v, ast.Constant) and isinstance(v.value, bool):
+        return True
+    if isinstance(v, ast.Call) and isinstance(v.func, ast.Name) and v.func.id in ("isinstance", "bool"):
+        return True
+    return isinstance(v, ast.Call) and _predicate_of(v, fn) is not None
+
+
+def _bool_local(n, fn):
+    """The boolean expression a local flag stands for: assigned exactly once, before the use, by a plain assignment."""
+    if not isinstance(n.ctx, ast.Load) or n.id in _comp_bound(n) or getattr(n, "_fn", fn) is not fn:
+        return None
+    if _scope_of(n.id, fn) is not fn or n.id in fn.params:
+        return None
+    st = [x for x in stores_of(fn).get(n.id, []) if not any(isinstance(a, ast.comprehension) for a in ancestors(x))]
+    if len(st) != 1:
+        return None
+    x, v = st[0], None
+    p = x._parent
+    if isinstance(p, ast.Assign) and x._field == "targets" and len(p.targets) == 1:
+        v = p.value
+    elif isinstance(p, ast.Tuple) and isinstance(p._parent, ast.Assign) and isinstance(p._parent.value, ast.Tuple) and \
+            len(p._parent.value.elts) == len(p.elts) and not any(isinstance(e, ast.Starred) for e in p.elts):
+        v = p._parent.value.elts[x._idx]
+    if v is None or pos(x) >= pos(n) or not _boolish(v, fn):
+        return None
+    return v
+
+
+def _predicate_of(call, fn):
+    """(g, {param: argument node}) when `call` calls exactly one helper of the module whose body is `return <expr>`."""
+    if any(isinstance(a, ast.Starred) for a in call.args) or any(k.arg is None for k in call.keywords):
+        return None
+    k, p = _resolve_basic(call, fn, ())
+    if k != "func" or len(p) != 1:
+        return None
+    g = p[0]
+    body = _docless(g.node.body)
+    if len(body) != 1 or not isinstance(body[0], ast.Return) or body[0].value is None or g.node.args.vararg or g.node.args.kwarg:
+        return None
+    val = body[0].value
+    if any(isinstance(x, (ast.Lambda, ast.Yield, ast.YieldFrom, ast.Await, ast.NamedExpr)) for x in ast.walk(val)):
+        return None
+    amap = dict(bind_args(call, g))
+    params = g.params
+    if g.cls and g.parent is None and params and params[0] in ("self", "cls"):
+        if not isinstance(call.func, ast.Attribute):
+            return None
+        amap[params[0]] = call.func.value
+    for pn in params:
+        if pn not in amap:
+            d = _param_default(g, pn)
+            if d is None:
+                return None
+            amap[pn] = d
+    bound = {x.id for c in ast.walk(val) if isinstance(c, ast.comprehension) for x in ast.walk(c.target) if isinstance(x, ast.Name)}
+    if bound & set(params):
+        return None
+    for x in ast.walk(val):
+        if isinstance(x, ast.Name) and x.id not in amap and x.id not in bound:
+            sc = _scope_of(x.id, g)
+            if sc is not None and sc not in list(_scope_chain(fn)):
+                return None
+    return g, amap
+
+
+def _instantiate(expr, amap, at):
+    """`expr` of a helper with its parameters replaced by the argument expressions, placed where `at` stands."""
+    def repl(x):
+        if isinstance(x, ast.Name) and isinstance(x.ctx, ast.Load) and x.id in amap:
+            return clone(amap[x.id])
+        return None
+    return graft(clone(expr, repl), at)
+
+
+def _inline_predicate(call, fn):
+    r = _predicate_of(call, fn)
+    if r is None:
+        return None
+    g, amap = r
+    return _instantiate(_docless(g.node.body)[0].value, amap, call)
+
+
+def _checker_tests(g):
+    """Tests of a pure checking helper: its body is nothing but `if <test>: <always raises>` statements."""
+    body = _docless(g.node.body)
+    if not body or g.node.args.vararg or g.node.args.kwarg:
+        return None
+    tests = []
+    for s in body:
+        if isinstance(s, ast.Assert):
+            t = ast.UnaryOp(op=ast.Not(), operand=s.test)       # `assert c` is `if not c: raise`
+        elif isinstance(s, ast.If) and not s.orelse and _always(s.body, g, _noret(g.mod), raise_only=True):
+            t = s.test
+        else:
+            return None
+        if any(isinstance(x, (ast.Lambda, ast.Yield, ast.YieldFrom, ast.Await, ast.NamedExpr)) for x in ast.walk(t)):
+            return None
+        tests.append(t)
+    return tests
+
+
+def _post_call_tests(call, fn):
+    """Instantiated tests that are known to be false after `call` returned (a call of a pure checking helper)."""
+    if any(isinstance(a, ast.Starred) for a in call.args) or any(k.arg is None for k in call.keywords):
+        return []
+    k, p = _resolve_basic(call, fn, ())
+    if k != "func" or len(p) != 1 or p[0] in _noret(p[0].mod):
+        return []
+    g = p[0]
+    tests = _checker_tests(g)
+    if not tests:
+        return []
+    amap = dict(bind_args(call, g))
+    params = g.params
+    if g.cls and g.parent is None and params and params[0] in ("self", "cls"):
+        if not isinstance(call.func, ast.Attribute):
+            return []
+        amap[params[0]] = call.func.value
+    for pn in params:
+        if pn not in amap:
+            d = _param_default(g, pn)
+            if d is None:
+                return []
+            amap[pn] = d
+    out = []
+    for t in tests:
+        for x in ast.walk(t):
+            if isinstance(x, ast.Name) and x.id not in amap and x.id not in _comp_bound(x):
+                sc = _scope_of(x.id, g)
+                if sc is not None and sc not in list(_scope_chain(fn)):
+                    return []
+        out.append(_instantiate(t, amap, call))
+    return out
+
+
 # formula: ('lit', key, pol) | ('and', [f]) | ('or', [f])
 # key: ('eq', l, r) ('in', l, r) ('isnone', x) ('isinst', x, (classes)) ('truthy', x) ('cmp', op, l, r)
 class Forms:
-    """Builds formulas from test expressions; remembers the node of every operand text."""
+    """Builds formulas from test expressions; remembers the node of every operand text.
+    With a function context, a test is read for what it computes: a local that names a boolean expression (assigned
+    once) stands for that expression, and a call of a helper whose body is `return <expr>` stands for that expression
+    with the arguments substituted.  `deps[id(test)]` lists the nodes whose names the formula additionally reads."""
 
-    def __init__(self):
+    def __init__(self, fn=None):
         self.nodes = {}
+        self.fn = fn
+        self.deps = {}
+        self._deps = None
+        self._depth = 0
 
     def t(self, n):
         s = text(n)
@@ -438,10 +920,45 @@ class Forms:
         return s
 
     def mk(self, n):
+        if self._deps is not None:
+            return self._mk(n)
+        self._deps = []
+        try:
+            f = self._mk(n)
+            if self._deps:
+                self.deps[id(n)] = self._deps
+        finally:
+            self._deps = None
+        return f
+
+    def _expand(self, n):
+        """The expression a boolean-valued local / predicate-helper call stands for, or None."""
+        if self.fn is None or self._depth > 6:
+            return None
+        v = None
+        if isinstance(n, ast.Name):
+            v = _bool_local(n, self.fn)
+            if v is not None:
+                self._deps.append(v)
+        elif isinstance(n, ast.Call):
+            v = _inline_predicate(n, self.fn)
+            if v is not None:
+                self._deps.append(n)
+        return v
+
+    def _mk(self, n):
         if isinstance(n, ast.BoolOp):
-            return ("and" if isinstance(n.op, ast.And) else "or", [self.mk(v) for v in n.values])
+            return ("and" if isinstance(n.op, ast.And) else "or", [self._mk(v) for v in n.values])
         if isinstance(n, ast.UnaryOp) and isinstance(n.op, ast.Not):
-            return neg(self.mk(n.operand))
+            return neg(self._mk(n.operand))
+        if isinstance(n, (ast.Name, ast.Call)):
+            v = self._expand(n)
+            if v is not None:
+                self._depth += 1
+                try:
+                    return self._mk(v)
+                finally:
+                    self._depth -= 1
         if isinstance(n, ast.Compare):
             parts, left = [], n.left
             for op, right in zip(n.ops, n.comparators):
@@ -455,7 +972,7 @@ class Forms:
                 names = tuple(sorted(e.attr if isinstance(e, ast.Attribute) else text(e) for e in elts))
                 return ("lit", ("isinst", self.t(n.args[0]), names), True)
             if n.func.id == "bool" and len(n.args) == 1:
-                return self.mk(n.args[0])
+                return self._mk(n.args[0])
         if isinstance(n, ast.Constant):
             return ("and", []) if n.value else ("or", [])
         return ("lit", ("truthy", self.t(n)), True)
@@ -536,9 +1053,22 @@ def raw_facts(node, fn, forms):
                     elif te and not tb:
                         out.tag = "pred-raise" if _always(s.orelse, fn, nr, raise_only=True) else "pred"
                         out.append((forms.mk(s.test), s.test))
+                    elif not tb and not te and forms.fn is not None:
+                        # `if c: <checks>`: after it, c implies what the checks established (and not-c the else checks)
+                        f = _after_if(s, fn, forms)
+                        if f is not None:
+                            out.tag = "pred-raise"
+                            out.append((f, s))
                 elif isinstance(s, ast.Assert):
                     out.tag = "pred-raise"
                     out.append((forms.mk(s.test), s.test))
+                elif isinstance(s, ast.Expr) and isinstance(s.value, ast.Call) and forms.fn is not None:
+                    # a call of a pure checking helper (`if c(params): raise`) is that check at the call site
+                    for t in _post_call_tests(s.value, fn):
+                        out.tag = "pred-raise"
+                        f = neg(forms.mk(t))
+                        forms.deps.setdefault(id(s.value), []).extend(forms.deps.pop(id(t), []))
+                        out.append((f, s.value))
                 elif isinstance(s, ast.For) and isinstance(s.target, ast.Name) and not s.orelse and \
                         isinstance(s.iter, (ast.Tuple, ast.List)) and \
                         all(isinstance(e, ast.Constant) for e in s.iter.elts):
@@ -553,6 +1083,46 @@ def raw_facts(node, fn, forms):
             out.tag = "enclosing"
         child, p = p, p._parent
     return out
+
+
+def _after_block(stmts, fn, forms, depth=0):
+    """Formulas that hold when the block has fallen through, as far as its raising checks tell (`if c: raise`, assert,
+    calls of pure checking helpers, nested ifs).  None if the block assigns or loops (nothing is claimed then)."""
+    out = []
+    for s in stmts:
+        if isinstance(s, ast.If):
+            nr = _noret(fn.mod)
+            tb = _always(s.body, fn, nr, raise_only=True)
+            te = bool(s.orelse) and _always(s.orelse, fn, nr, raise_only=True)
+            if tb and not te and not s.orelse:
+                out.append(neg(forms.mk(s.test)))
+            elif te and not tb:
+                out.append(forms.mk(s.test))
+            elif depth < 3 and not terminates(s.body, fn) and not (s.orelse and terminates(s.orelse, fn)):
+                f = _after_if(s, fn, forms, depth + 1)
+                if f is not None:
+                    out.append(f)
+            else:
+                return None
+        elif isinstance(s, ast.Assert):
+            out.append(forms.mk(s.test))
+        elif isinstance(s, ast.Expr) and isinstance(s.value, ast.Call):
+            for t in _post_call_tests(s.value, fn):
+                out.append(neg(forms.mk(t)))
+        elif isinstance(s, (ast.Pass, ast.Expr)):
+            continue
+        else:
+            return None
+    return out
+
+
+def _after_if(s, fn, forms, depth=0):
+    fb = _after_block(s.body, fn, forms, depth)
+    fe = _after_block(s.orelse, fn, forms, depth) if s.orelse else []
+    if fb is None or fe is None or (not fb and not fe):
+        return None
+    t = forms.mk(s.test)
+    return ("or", [("and", [t] + fb), ("and", [neg(t)] + fe)])
 
 
 def _subst(f, name, repl, forms):
@@ -623,7 +1193,7 @@ class Know:
 
     def __init__(self, mod, fn, env=None):
         self.mod, self.fn, self.env = mod, fn, dict(env or {})
-        self.forms = Forms()
+        self.forms = Forms(fn)
         self.K = {}
         self.fs = []
         self.bad = False
@@ -829,10 +1399,199 @@ def know_at(node, fn, env=None, skip=()):
     for f, origin, tag in raw_facts(node, fn, k.forms):
         if tag in skip:
             continue
-        if still_valid(origin, node, fn):
+        if still_valid(origin, node, fn) and all(still_valid(d, node, fn) for d in k.forms.deps.get(id(origin), ())
+                                                 if getattr(d, "_fn", None) is fn and not getattr(d, "_syn", False)):
             k.add(f)
             k.origins.append(origin)
+    for f, nodes, names in entry_facts(fn, tuple(skip)):
+        if all(_unchanged_since_entry(nm, node, fn) for nm in names):
+            for t, n in nodes.items():
+                k.forms.nodes.setdefault(t, n)
+            k.add(f)
     return k.propagate()
+
+
+# ----------------------------------------------------------------------------- facts that hold on entry of a helper
+_OPERANDS = {"eq": (1, 2), "in": (1, 2), "is": (1, 2), "isnone": (1,), "truthy": (1,), "isinst": (1,), "cmp": (2, 3)}
+ENTRY_POINTS = ("parse_string", "parse_file", "generate", "main")
+_entry_busy = set()
+
+
+def _unchanged_since_entry(name, node, fn):
+    lu = loops_of(node)
+    for st in stores_of(fn).get(name, ()):
+        if any(isinstance(a, ast.comprehension) for a in ancestors(st)):
+            continue
+        if pos(st) < pos(node) or any(L in lu for L in loops_of(st)):
+            return False
+    return True
+
+
+def _value_referenced(fn):
+    """The function is used as a value somewhere (stored, passed on): its callers are then not all known by name."""
+    name = fn.node.name
+    for g in [None] + list(fn.mod.funcs.values()):
+        for n in fn.mod.nodes(g):
+            if isinstance(n, ast.Name) and n.id == name and isinstance(n.ctx, ast.Load):
+                ref = func_of_ref(n, g)
+            elif isinstance(n, ast.Attribute) and n.attr == name and isinstance(n.ctx, ast.Load):
+                ref = func_of_ref(n, g) if g is not None else None
+            else:
+                continue
+            if ref is fn and not (isinstance(n._parent, ast.Call) and n._field == "func"):
+                return True
+    return False
+
+
+def _private(fn):
+    """Callers outside the analysed entry points cannot be expected: nested functions, `_name` functions / methods, methods
+    of `_Name` classes."""
+    if fn.node.name in ENTRY_POINTS and fn.parent is None and fn.cls is None:
+        return False
+    if fn.parent is not None or fn.node.name.startswith("_") and not fn.node.name.startswith("__"):
+        return True
+    return bool(fn.cls) and fn.cls.startswith("_") and not fn.node.name.startswith("__")
+
+
+def _translate_operand(t, forms, amap, caller, callee):
+    """(text, node, names) of operand `t` of a caller's fact in the callee's vocabulary, or None."""
+    node = forms.nodes.get(t)
+    if node is None:
+        try:
+            node = ast.parse(t, mode="eval").body
+        except SyntaxError:
+            return None
+    bound = {x.id for c in ast.walk(node) if isinstance(c, ast.comprehension) for x in ast.walk(c.target) if isinstance(x, ast.Name)}
+    bound |= _comp_bound(node) if hasattr(node, "_parent") else set()
+    names = set()
+    ok = [True]
+    chain = list(_scope_chain(callee.parent))
+
+    def repl(x):
+        if isinstance(x, ast.expr):
+            tx = ast.unparse(x)
+            if tx in amap:
+                names.add(amap[tx])
+                return ast.Name(id=amap[tx], ctx=ast.Load())
+        if isinstance(x, ast.Name) and x.id not in bound:
+            sc = _scope_of(x.id, caller)
+            if sc is None:
+                if x.id in callee.params or x.id in stores_of(callee):
+                    ok[0] = False
+            elif sc in chain and x.id not in callee.params and x.id not in stores_of(callee):
+                names.add(x.id)
+            else:
+                ok[0] = False
+        return None
+    new = clone(node, repl)
+    if not ok[0]:
+        return None
+    return ast.unparse(new), new, names
+
+
+def _translate(f, forms, amap, caller, callee, nodes, names):
+    """Formula f of the caller in the callee's vocabulary; None when nothing of it can be said there."""
+    if f[0] == "lit":
+        key = list(f[1])
+        for i in _OPERANDS.get(key[0], ()):
+            r = _translate_operand(key[i], forms, amap, caller, callee)
+            if r is None:
+                return None
+            key[i] = r[0]
+            nodes.setdefault(r[0], r[1])
+            names |= r[2]
+        if key[0] not in _OPERANDS:
+            return None
+        return ("lit", tuple(key), f[2])
+    parts = [_translate(x, forms, amap, caller, callee, nodes, names) for x in f[1]]
+    if f[0] == "or":
+        return None if any(x is None for x in parts) else ("or", parts)
+    return ("and", [x for x in parts if x is not None])
+
+
+def _names_of(f, nodes, out=None):
+    out = set() if out is None else out
+    if f[0] == "lit":
+        for i in _OPERANDS.get(f[1][0], ()):
+            n = nodes.get(f[1][i])
+            if n is not None:
+                bound = {x.id for c in ast.walk(n) if isinstance(c, ast.comprehension) for x in ast.walk(c.target)
+                         if isinstance(x, ast.Name)}
+                out |= {x.id for x in ast.walk(n) if isinstance(x, ast.Name)} - bound
+    else:
+        for x in f[1]:
+            _names_of(x, nodes, out)
+    return out
+
+
+def entry_facts(fn, skip=()):
+    """[(formula, {operand text: node}, {names read})]: what holds whenever `fn` is entered, i.e. at every one of its call
+    sites (arguments bound to parameters).  Only for helpers whose callers are all known (see _private); a helper
+    that is also used as a value, or that takes part in a call cycle, gets none."""
+    cache = _mods.setdefault(("entry", cfront.REPO), {})
+    key = (fn, skip)
+    if key in cache:
+        return cache[key]
+    if fn in _entry_busy or len(_entry_busy) > 6 or not _private(fn) or ("callidx", cfront.REPO) not in _mods:
+        return []
+    _entry_busy.add(fn)
+    try:
+        out = _entry_facts(fn, skip)
+    finally:
+        _entry_busy.discard(fn)
+    if not _entry_busy:
+        cache[key] = out
+    return out
+
+
+def _entry_facts(fn, skip):
+    sites = _sites(fn)
+    if not sites or _value_referenced(fn):
+        return []
+    per_site = []
+    for caller, call in sites:
+        if caller is fn or any(isinstance(a, ast.Starred) for a in call.args) or any(k.arg is None for k in call.keywords):
+            return []
+        k = know_at(call, caller, skip=skip)
+        if k.bad:
+            continue                    # the call site is unreachable
+        amap = {}
+        for pn, a in bind_args(call, fn).items():
+            amap.setdefault(ast.unparse(a), pn)
+        params = fn.params
+        if fn.cls and fn.parent is None and params and params[0] in ("self", "cls") and isinstance(call.func, ast.Attribute):
+            amap.setdefault(ast.unparse(call.func.value), params[0])
+        nodes, fs = {}, []
+        for key, val in k.K.items():
+            names = set()
+            f = _translate(("lit", key, val), k.forms, amap, caller, fn, nodes, names)
+            if f is not None:
+                fs.append(f)
+        for f0 in k.fs:
+            names = set()
+            f = _translate(f0, k.forms, amap, caller, fn, nodes, names)
+            if f is not None and f != ("and", []):
+                fs.append(f)
+        per_site.append((fs, nodes))
+    if not per_site:
+        return []
+    fs0, nodes0 = per_site[0]
+    keep = []
+    for f in fs0:
+        good = True
+        for fs1, nodes1 in per_site[1:]:
+            kk = Know(fn.mod, fn)
+            kk.forms.nodes.update(nodes0)
+            kk.forms.nodes.update(nodes1)
+            for g in fs1:
+                kk.add(g)
+            kk.propagate()
+            if kk.holds(f) is not True:
+                good = False
+                break
+        if good:
+            keep.append(f)
+    return [(f, nodes0, _names_of(f, nodes0)) for f in keep]
 
 
 # ----------------------------------------------------------------------------- schema model
@@ -987,6 +1746,31 @@ def table_of(node):
     return None
 
 
+def tables_of(node, fn):
+    """The schema tables an expression can denote: `<schema>.T` itself, or a local / parameter / dispatch-table component
+    that can only hold such accesses.  Empty set: not (known to be) a table."""
+    t = table_of(node)
+    if t:
+        return {t}
+    if isinstance(node, ast.Name) and fn is not None and _scope_of(node.id, fn) is not None:
+        out = set()
+        for n, lf, idx in leaves(node, fn):
+            if isinstance(n, ast.Constant) and n.value is None:
+                continue            # a dispatch miss: excluded (or reported) where the value is unpacked / called
+            t = table_of(n) if idx is None else None
+            if not t:
+                return set()
+            out.add(t)
+        return out
+    return set()
+
+
+def table1(node, fn):
+    """The one table `node` denotes (directly, or as a local alias `t = schema.elements`), else None."""
+    ts = tables_of(node, fn)
+    return next(iter(ts)) if len(ts) == 1 else None
+
+
 # ----------------------------------------------------------------------------- class inference
 def classes_of(expr, fn, at=None, depth=0):
     """Set of schema class names the value of `expr` may have (empty: unknown)."""
@@ -1020,6 +1804,24 @@ def classes_of(expr, fn, at=None, depth=0):
                     return set()
                 out |= names
             return out
+    if isinstance(expr, ast.Subscript) and isinstance(expr.value, ast.Name) and not isinstance(expr.slice, ast.Slice) \
+            and isinstance(expr.ctx, ast.Load):
+        return elem_classes(expr.value, fn, depth + 1)            # kids[i] : an element of a list of declarations
+    if isinstance(expr, ast.Attribute) and isinstance(expr.value, ast.Name) and expr.value.id == "self" and fn is not None \
+            and fn.cls and expr.attr not in sm.fields.get(fn.cls, {}):
+        # a field of a helper class: what its methods assign to it
+        out = set()
+        for g in fn.mod.funcs.values():
+            if g.cls != fn.cls:
+                continue
+            for n in g.mod.nodes(g):
+                if isinstance(n, ast.Assign) and any(isinstance(t, ast.Attribute) and isinstance(t.value, ast.Name)
+                                                      and t.value.id == "self" and t.attr == expr.attr for t in n.targets):
+                    c = classes_of(n.value, g, n.value, depth + 1)
+                    if not c:
+                        return set()
+                    out |= c
+        return out
     if isinstance(expr, ast.Attribute):
         base = classes_of(expr.value, fn, at, depth + 1)
         out = set()
@@ -1093,6 +1895,23 @@ def elem_classes(it, fn, depth=0):
                 return sm.method_elem(f.attr)
         if isinstance(f, ast.Name) and f.id in ("list", "sorted", "tuple", "reversed") and it.args:
             return elem_classes(it.args[0], fn, depth + 1)
+        if isinstance(f, ast.Name) or (isinstance(f, ast.Attribute) and isinstance(f.value, ast.Name) and f.value.id == "self"):
+            # a helper of the module: what the lists it returns hold
+            k, p = resolve(it, fn, (sm.mod,))
+            out = set()
+            if k == "func":
+                for g in p:
+                    el = _ann_elem(g.node.returns)
+                    if el is not None and _ann_names(el) & set(sm.mod.classes):
+                        out |= _ann_names(el) & set(sm.mod.classes)
+                        continue
+                    for r in g.mod.nodes(g):
+                        if isinstance(r, ast.Return) and r.value is not None:
+                            c = elem_classes(r.value, g, depth + 1)
+                            if not c:
+                                return set()
+                            out |= c
+            return out
         return set()
     if isinstance(it, ast.Attribute):
         if it.attr == "members":
@@ -1106,16 +1925,18 @@ def elem_classes(it, fn, depth=0):
     if isinstance(it, ast.BinOp) and isinstance(it.op, ast.Add):
         return elem_classes(it.left, fn, depth + 1) | elem_classes(it.right, fn, depth + 1)
     if isinstance(it, (ast.ListComp, ast.GeneratorExp)):
-        g = it.generators[0]
-        if len(it.generators) == 1 and isinstance(it.elt, ast.Name) and isinstance(g.target, ast.Name) \
-                and it.elt.id == g.target.id:
+        gens = [g for g in it.generators if isinstance(it.elt, ast.Name) and isinstance(g.target, ast.Name)
+                and it.elt.id == g.target.id]
+        if gens:
+            g = gens[-1]
             base = elem_classes(g.iter, fn, depth + 1)
             forms = Forms()
-            for c in g.ifs:
-                f = forms.mk(c)
-                for x in (f[1] if f[0] == "and" else [f]):
-                    if x[0] == "lit" and x[2] and x[1][0] == "isinst" and x[1][1] == it.elt.id:
-                        base = set(x[1][2]) & set(sm.mod.classes)
+            for g2 in it.generators[it.generators.index(g):]:
+                for c in g2.ifs:
+                    f = forms.mk(c)
+                    for x in (f[1] if f[0] == "and" else [f]):
+                        if x[0] == "lit" and x[2] and x[1][0] == "isinst" and x[1][1] == it.elt.id:
+                            base = set(x[1][2]) & set(sm.mod.classes)
             return base
         return set()
     if isinstance(it, ast.Name):
@@ -1131,6 +1952,15 @@ def elem_classes(it, fn, depth=0):
                 out |= elem_classes(p.value, scope, depth + 1)
             elif isinstance(p, ast.AugAssign):
                 out |= elem_classes(p.value, scope, depth + 1)
+        for n in scope.mod.nodes(scope):          # growth: X.append(v) / X.extend(vs) / X.insert(i, v)
+            if isinstance(n, ast.Call) and isinstance(n.func, ast.Attribute) and isinstance(n.func.value, ast.Name) \
+                    and n.func.value.id == it.id and n.args:
+                if n.func.attr == "append":
+                    out |= classes_of(n.args[0], scope, n.args[0], depth + 1)
+                elif n.func.attr == "insert" and len(n.args) == 2:
+                    out |= classes_of(n.args[1], scope, n.args[1], depth + 1)
+                elif n.func.attr == "extend":
+                    out |= elem_classes(n.args[0], scope, depth + 1)
         return out
     return set()
 
@@ -1151,10 +1981,8 @@ def universe():
 
 
 def _sites(target):
-    cache = _mods.setdefault(("sites", cfront.REPO), {})
-    if target not in cache:
-        cache[target] = call_sites(target, universe(), (model().mod,))
-    return cache[target]
+    """Call sites of `target` in the analysed modules, calls through dispatch variables / callable parameters included."""
+    return _callidx()["sites"].get(target, [])
 
 
 def name_key_tables():
@@ -1167,15 +1995,14 @@ def name_key_tables():
             for n in sm.mod.nodes(f):
                 if isinstance(n, ast.Assign) and len(n.targets) == 1 and isinstance(n.targets[0], ast.Subscript):
                     t = n.targets[0]
-                    T = table_of(t.value)
-                    if T and isinstance(t.slice, ast.Attribute) and t.slice.attr == "name" and \
+                    if isinstance(t.slice, ast.Attribute) and t.slice.attr == "name" and \
                             text(t.slice.value) == text(n.value):
-                        out.add(T)
+                        out |= tables_of(t.value, f)      # also through `table` selected from a dispatch table
         stores = set()
         for f in sm.mod.funcs.values():
             for n in sm.mod.nodes(f):
-                if isinstance(n, ast.Subscript) and isinstance(n.ctx, ast.Store) and table_of(n.value):
-                    stores.add(table_of(n.value))
+                if isinstance(n, ast.Subscript) and isinstance(n.ctx, ast.Store):
+                    stores |= tables_of(n.value, f)
         _mods[key] = out, stores
     return _mods[key][0]
 
@@ -1205,7 +2032,29 @@ def origins(expr, fn, at=None, seen=None, depth=0):
         return _name_origins(expr.id, fn, expr, None, seen, depth)
     if isinstance(expr, ast.Call) and isinstance(expr.func, ast.Attribute) and expr.func.attr == "pop":
         return elem_origins(expr.func.value, fn, None, seen, depth + 1)
+    if isinstance(expr, ast.Subscript) and isinstance(expr.slice, ast.Constant) and isinstance(expr.slice.value, int) \
+            and expr.slice.value >= 0 and not table_of(expr.value) and isinstance(expr.value, ast.Name):
+        return _pick(expr.value, fn, expr.slice.value, seen, depth + 1)        # component of a tuple-valued local
     return {("unknown", text(expr))}
+
+
+def _tuple_return_elts(call, fn, n=None):
+    """[(component list, Func)] of the tuple literals returned by the function(s) `call` calls, when every return of every
+    target is a tuple literal (of length n, if given); else None."""
+    k, p = resolve(call, fn, (model().mod,))
+    if k != "func" or not p:
+        return None
+    out = []
+    for g in p:
+        rets = [r for r in g.mod.nodes(g) if isinstance(r, ast.Return)]
+        if not rets:
+            return None
+        for r in rets:
+            if not isinstance(r.value, ast.Tuple) or any(isinstance(e, ast.Starred) for e in r.value.elts) or \
+                    (n is not None and len(r.value.elts) != n):
+                return None
+            out.append((r.value.elts, g))
+    return out
 
 
 def _scope_of(name, fn):
@@ -1274,6 +2123,13 @@ def _name_origins(name, fn, use, idx, seen, depth):
                 elif isinstance(st.value, ast.Call) and isinstance(st.value.func, ast.Attribute) and \
                         st.value.func.attr == "pop" and isinstance(tpos, int):
                     out |= elem_origins(st.value.func.value, scope, tpos, seen, depth + 1)
+                elif isinstance(st.value, ast.Name) and isinstance(tpos, int) and idx is None:
+                    out |= _pick(st.value, scope, tpos, seen, depth + 1)       # a, b = item
+                elif isinstance(st.value, ast.Call) and isinstance(tpos, int) and idx is None and \
+                        _tuple_return_elts(st.value, scope, len(tgt.elts)):
+                    # a, b = helper(..): the component of every tuple the helper returns
+                    for elts, g in _tuple_return_elts(st.value, scope, len(tgt.elts)):
+                        out |= origins(elts[tpos], g, elts[tpos], seen, depth + 1)
                 else:
                     out.add(("unknown", text(st.value)))
             else:
@@ -1301,6 +2157,13 @@ def _pick(expr, fn, idx, seen, depth):
         return _name_origins(expr.id, fn, expr, idx, seen, depth + 1)
     if isinstance(expr, ast.Call) and isinstance(expr.func, ast.Attribute) and expr.func.attr == "pop":
         return elem_origins(expr.func.value, fn, idx, seen, depth + 1)
+    if isinstance(expr, ast.Call):
+        tr = _tuple_return_elts(expr, fn)
+        if tr and all(idx < len(elts) for elts, _ in tr):
+            out = set()
+            for elts, g in tr:
+                out |= origins(elts[idx], g, elts[idx], seen, depth + 1)
+            return out
     return {("unknown", text(expr))}
 
 
@@ -1456,47 +2319,113 @@ def _iter_tables(expr, fn, depth=0):
     return None
 
 
-def _coverage(var, at, fn):
-    """(kind, tables) the variable `var` ranges over at `at`: ('members'|'children', {tables}) or None.
-    Requires plain nested for-loops without break/return."""
-    loop = None
+def _own_loop(var, at, fn):
+    """The innermost `for var in ...` / `for key, var in <table>.items()` of fn that encloses `at` (not in its iterable)."""
     for a in ancestors(at):
-        if isinstance(a, ast.For) and isinstance(a.target, ast.Name) and a.target.id == var and a._fn is fn:
-            loop = a
+        if isinstance(a, ast.For) and a._fn is fn and not inside(at, a.iter):
+            if isinstance(a.target, ast.Name) and a.target.id == var:
+                return a
+            if isinstance(a.target, ast.Tuple) and any(isinstance(e, ast.Name) and e.id == var for e in a.target.elts):
+                return a
+    return None
+
+
+def _single_value(expr, fn):
+    """The expression a single-assigned local stands for (else the expression itself)."""
+    seen = 0
+    while isinstance(expr, ast.Name) and seen < 4:
+        st = stores_of(fn).get(expr.id, [])
+        if len(st) != 1 or not (isinstance(st[0]._parent, ast.Assign) and st[0]._field == "targets") or expr.id in fn.params:
             break
+        expr = st[0]._parent.value
+        seen += 1
+    return expr
+
+
+def _comp_range(comp, fn, binds, uncond, at):
+    """Range of the elements of `[m for c in <declarations> for m in c.members if isinstance(m, C)]` (any nesting of the
+    same kind): ('item', kind, tables) / ('decl', tables), or None."""
+    if not isinstance(comp, (ast.ListComp, ast.GeneratorExp)) or not isinstance(comp.elt, ast.Name):
+        return None
+    env = {}
+    for g in comp.generators:
+        if not isinstance(g.target, ast.Name):
+            return None
+        for c in g.ifs:                         # only isinstance tests of the variable just bound keep the range whole
+            f = Forms().mk(c)
+            lits = f[1] if f[0] == "and" else [f]
+            if not all(x[0] == "lit" and x[2] and x[1][0] == "isinst" and x[1][1] == g.target.id for x in lits):
+                return None
+        it = g.iter
+        r = None
+        if isinstance(it, ast.Attribute) and it.attr == "members" and isinstance(it.value, ast.Name):
+            o = env.get(it.value.id)
+            r = ("item", "members", o[1]) if o and o[0] == "decl" else None
+        elif isinstance(it, ast.Call) and isinstance(it.func, ast.Attribute) and it.func.attr == "children" and \
+                isinstance(it.func.value, ast.Name) and not it.args:
+            o = env.get(it.func.value.id)
+            r = ("item", "children", o[1]) if o and o[0] == "decl" else None
+        else:
+            tabs = _iter_tables(it, fn)
+            r = ("decl", frozenset(tabs)) if tabs is not None else None
+        if r is None:
+            return None
+        env[g.target.id] = r
+    return env.get(comp.elt.id)
+
+
+def _exits_early(loop, fn):
+    return any(isinstance(n, (ast.Break, ast.Return)) and n._fn is fn for n in ast.walk(loop))
+
+
+def _range_of(var, at, fn, binds, uncond):
+    """What variable `var` ranges over at `at`: ('decl', tables) -- every declaration of those tables -- or
+    ('item', kind, tables) -- every member / child of every declaration of those tables -- or None.
+    `binds` says what the parameters of fn range over (from the call sites); declaration loops are recognised only
+    as top-level statements of a function that runs unconditionally (`uncond`).  No loop involved may exit early."""
+    loop = _own_loop(var, at, fn)
     if loop is None:
+        return binds.get(var) if var in fn.params and var not in stores_of(fn) else None
+    if _exits_early(loop, fn) or loop.orelse:
         return None
     it = loop.iter
+    if isinstance(loop.target, ast.Tuple):
+        # for key, decl in <schema>.T.items()
+        if not (len(loop.target.elts) == 2 and isinstance(loop.target.elts[1], ast.Name) and loop.target.elts[1].id == var
+                and isinstance(it, ast.Call) and isinstance(it.func, ast.Attribute) and it.func.attr == "items"
+                and table_of(it.func.value) and not it.args and uncond and loop._parent is fn.node):
+            return None
+        return ("decl", frozenset({table_of(it.func.value)}))
+    src = _single_value(it, fn)
+    if isinstance(src, (ast.ListComp, ast.GeneratorExp)):
+        # the comprehension ranges over whole tables only if it is evaluated unconditionally
+        if not (uncond and loop._parent is fn.node and (src is it or stmt_of(src)._parent is fn.node)
+                and still_valid(src, loop, fn)):
+            return None
+        return _comp_range(src, fn, binds, uncond, loop)
+    owner = None
     if isinstance(it, ast.Attribute) and it.attr == "members" and isinstance(it.value, ast.Name):
         kind, owner = "members", it.value.id
     elif isinstance(it, ast.Call) and isinstance(it.func, ast.Attribute) and it.func.attr == "children" \
             and isinstance(it.func.value, ast.Name) and not it.args:
         kind, owner = "children", it.func.value.id
-    else:
-        return None
-    outer = None
-    for a in ancestors(loop):
-        if isinstance(a, ast.For) and isinstance(a.target, ast.Name) and a.target.id == owner and a._fn is fn:
-            outer = a
-            break
-    if outer is None:
-        return None
-    for n in ast.walk(outer):
-        if isinstance(n, (ast.Break, ast.Return)) and n._fn is fn:
+    if owner is not None:
+        o = _range_of(owner, loop, fn, binds, uncond)
+        if o is None or o[0] != "decl":
             return None
-    tabs = _iter_tables(outer.iter, fn)
-    if tabs is None:
+        return ("item", kind, o[1])
+    tabs = _iter_tables(it, fn)
+    if tabs is None or not uncond or loop._parent is not fn.node:
         return None
-    # the outer loop itself must be unconditional in fn (not nested in an if / another loop)
-    if outer._parent is not fn.node:
-        return None
-    return kind, tabs, outer
+    return ("decl", frozenset(tabs))
 
 
 def validator_guarantees():
     """Membership guarantees established by _validate before it returns:
     [{cls, field, table, types, top, line, fn}] meaning: for every <cls> member/child of every declaration,
-    (types is None or member.type in types) => member.<field> in schema.<table>."""
+    (types is None or member.type in types) => member.<field> in schema.<table>.
+    The check may sit in _validate itself or in helpers it calls (per declaration, per member, or once): what a
+    helper's parameters range over is carried from the call site, conditions on the way are facts at the raise."""
     key = ("guar", cfront.REPO)
     if key in _mods:
         return _mods[key]
@@ -1504,11 +2433,17 @@ def validator_guarantees():
     m = sm.mod
     V = m.func("_validate")
     out = []
+    weak = _mods.setdefault(("guar-weak", cfront.REPO), [])
+    done = set()
 
-    def scan(fn, outer_site=None, outer_cov=None, param_map=None):
+    def plain(k, var):
+        """Nothing but isinstance tests of `var` (and tests of its .type, which the callee's entry facts carry on and
+        which become the type condition of the guarantee) is assumed."""
+        return not k.fs and all((k2[0] == "isinst" and k2[1] == var) or
+                                (var is not None and k2[0] in ("eq", "in") and k2[1] == f"{var}.type") for k2 in k.K)
+
+    def scan(fn, binds, uncond, top, depth):
         for st in raise_sites(fn):
-            if fn.parent is not None and fn in _noret(m):
-                continue
             k = know_at(st, fn, skip=("pred-raise",))
             mem = [(key, v) for key, v in k.K.items() if key[0] == "in" and not v and
                    table_of(k.forms.nodes.get(key[2])) and isinstance(k.forms.nodes.get(key[1]), ast.Attribute)]
@@ -1532,48 +2467,63 @@ def validator_guarantees():
                         types = frozenset(k.values(f"{var}.type", sm.types))
                         continue
                     extra.append(k2)
-                if extra or k.fs:
+                rng = None if (extra or k.fs) else _range_of(var, st, fn, binds, uncond)
+                need = {"members": {"groups", "elements"}, "children": {"elements"}}.get(rng[1]) if rng and rng[0] == "item" else None
+                if need is None or not need <= rng[2]:
+                    # a check of this field against this table exists, but it is not shown to run for every declaration
+                    # (extra conditions, a loop shape that is not understood): consumers relying on it are undecided
+                    weak.append({"cls": cls, "field": kn.attr, "table": table_of(k.forms.nodes[key[2]]), "line": st.lineno,
+                                 "fn": fn.qual})
                     continue
-                if outer_site is None:
-                    cov = _coverage(var, st, fn)
-                    top = top_stmt(st, fn) if cov else None
-                else:
-                    # per-item validator: the item is a parameter; coverage comes from the call site
-                    if param_map.get(var) is None:
-                        continue
-                    cov, top = outer_cov, outer_site
-                if not cov:
-                    continue
-                kind, tabs, outer = cov
-                need = {"members": {"groups", "elements"}, "children": {"elements"}}[kind]
-                if not need <= tabs:
-                    continue
+                t = top if top is not None else V.node.body.index(top_stmt(st, V))
                 out.append({"cls": cls, "field": kn.attr, "table": table_of(k.forms.nodes[key[2]]), "types": types,
-                            "top": V.node.body.index(top), "line": st.lineno, "fn": fn.qual})
+                            "top": t, "line": st.lineno, "fn": fn.qual})
+        if depth >= 4:
+            return
+        for c in calls_in(fn):
+            kind, p = resolve(c, fn)
+            if kind != "func" or len(p) != 1 or p[0].mod is not m or p[0] is fn or p[0] in _noret(m) or \
+                    any(isinstance(a, ast.Starred) for a in c.args):
+                continue
+            g = p[0]
+            kc = know_at(c, fn, skip=("pred-raise",))
+            gb = {}
+            for pname, a in bind_args(c, g).items():
+                if isinstance(a, ast.Name):
+                    r = _range_of(a.id, c, fn, binds, uncond)
+                    if r is not None and plain(kc, a.id):
+                        gb[pname] = r
+            g_uncond = uncond and stmt_of(c)._parent is fn.node and isinstance(stmt_of(c), ast.Expr) and plain(kc, None)
+            if not gb and not g_uncond:
+                continue
+            sig = (g, tuple(sorted(gb.items())), g_uncond)
+            if sig in done:
+                continue
+            done.add(sig)
+            scan(g, gb, g_uncond, top if top is not None else V.node.body.index(top_stmt(c, V)), depth + 1)
 
-    scan(V)
-    # per-item validators called from _validate for every member
-    for c in calls_in(V):
-        kind, p = resolve(c, V)
-        if kind != "func" or len(p) != 1 or p[0].parent is not None or p[0] is V:
-            continue
-        g = p[0]
-        binding = bind_args(c, g)
-        pm = {}
-        cov = None
-        for pname, a in binding.items():
-            if isinstance(a, ast.Name):
-                cv = _coverage(a.id, c, V)
-                if cv:
-                    kc = know_at(c, V, skip=("pred-raise",))
-                    others = [k2 for k2 in kc.K if not (k2[0] == "isinst" and k2[1] == a.id)]
-                    if not others and not kc.fs:
-                        pm[pname] = a.id
-                        cov = cv
-        if cov:
-            scan(g, top_stmt(c, V), cov, pm)
+    scan(V, {}, True, None, 0)
+    # checks in helpers the scan did not enter (called under conditions, too deep): weak as well
+    for fn in closure([V]):
+        for st in raise_sites(fn):
+            k = know_at(st, fn, skip=("pred-raise",))
+            for key2, v in k.K.items():
+                kn = k.forms.nodes.get(key2[1]) if key2[0] == "in" and not v else None
+                if isinstance(kn, ast.Attribute) and table_of(k.forms.nodes.get(key2[2])):
+                    for c in classes_of(kn.value, fn, st) or {None}:
+                        e = {"cls": c, "field": kn.attr, "table": table_of(k.forms.nodes[key2[2]]), "line": st.lineno, "fn": fn.qual}
+                        if not any(g["cls"] == e["cls"] and g["field"] == e["field"] and g["table"] == e["table"] for g in out + weak):
+                            weak.append(e)
     _mods[key] = out
     return out
+
+
+def weak_guarantee(origin, table):
+    """A check of `origin` = ('field', cls, field) against schema.<table> exists in the validator's closure but was not
+    shown to cover every declaration: a lookup that would rely on it is undecided rather than violating."""
+    validator_guarantees()
+    return any(origin[0] == "field" and g["field"] == origin[2] and g["table"] == table and g["cls"] in (origin[1], None)
+               for g in _mods.get(("guar-weak", cfront.REPO), []))
 
 
 def validate_postdominates():
@@ -1653,3 +2603,28 @@ def reaching(name, use, fn):
         elif pos(s) > pos(use) and any(L in lu and not inside(dom, L) for L in loops_of(s)):
             out.append(s)
     return out
+
+
+# ----------------------------------------------------------------------------- "cannot decide" is not a violation
+class Undecided:
+    """Obligations the analyser could not interpret (a value it cannot trace, a call it cannot resolve).  They are not
+    VIOLATIONs: if the run has no definite violation to report, it ends as ANALYSIS-ERROR (exit 2, never a pass)."""
+
+    def __init__(self):
+        self.items = []
+
+    def add(self, rule, construct, file, line, msg):
+        self.items.append({"rule": rule, "construct": str(construct), "where": f"{file}:{line}", "msg": msg})
+
+    def finish(self, res):
+        if not self.items:
+            return
+        res.extra["undecided"] = self.items
+        from .report import load_known
+        known = {(k.get("rule"), k.get("construct")) for k in load_known()
+                 if k.get("property") == res.pid and k.get("status", "known") == "known"}
+        if any((v["rule"], v["construct"]) not in known for v in res.violations):
+            return                      # a definite violation is the more useful verdict
+        raise AnalysisError("cannot decide: " + "; ".join(
+            f"{u['where']} {u['rule']} {u['construct']}: {u['msg']}" for u in self.items[:6]) +
+            (f" (+{len(self.items) - 6} more)" if len(self.items) > 6 else ""))
